@@ -69,7 +69,7 @@ def scenario(world: WorldT) -> None:
         if op["gap"]:
             world.sleep(op["gap"])
         mark = len(model.commands)
-        built = build_command(op, ci, facade, spa, res, cfg["snapshot"], sync=True)
+        built = build_command(op, ci, facade, spa, res, cfg["snapshot"], sync=True, model=model)
         if built is None:
             continue
         ctx, expect, thunk = built
